@@ -97,7 +97,9 @@ func (p *ProcessConfig) Compare(another *ProcessConfig) bool {
 		p.Description != another.Description ||
 		p.IsForeground != another.IsForeground ||
 		p.IsTty != another.IsTty ||
-		p.IsElevated != another.IsElevated {
+		p.IsElevated != another.IsElevated ||
+		p.LaunchTimeout != another.LaunchTimeout ||
+		p.Executable != another.Executable {
 		return false
 	}
 
@@ -110,6 +112,7 @@ func (p *ProcessConfig) Compare(another *ProcessConfig) bool {
 		!reflect.DeepEqual(p.DependsOn, another.DependsOn) ||
 		!reflect.DeepEqual(p.RestartPolicy, another.RestartPolicy) ||
 		!reflect.DeepEqual(p.Environment, another.Environment) ||
+		!reflect.DeepEqual(p.Entrypoint, another.Entrypoint) ||
 		!reflect.DeepEqual(p.Args, another.Args) {
 		//diffs := compareStructs(*p, *another)
 		//log.Warn().Msgf("Structs are different: %s", diffs)
